@@ -23,7 +23,7 @@ SPEC = {
     "driver": "drv_c05",
     "harness": "c05",
     "race": True,
-    "theorems": ["C05_linearizable", "C05_linearizable_open", "C05_linearizable_close", "C05_checker_complete_on_model_partial",
+    "theorems": ["C05_linearizable", "C05_linearizable_open", "C05_linearizable_close", "C05_checker_complete_on_model", "C05_checker_complete",
                  "C05_lin_points_in_window", "C05_finished_complete", "C05_iterate_snapshot",
                  "C05_well_locked", "C05_locks_exclusive", "C05_map_access_only_at_eff", "C05_deadlock_free",
                  "C05_code_well_bracketed", "C05_effects_are_C04_spec", "C05_commit_effects_are_C04_spec",
@@ -38,8 +38,10 @@ SPEC = {
         "semantics of sync.RWMutex (writer preference: a pending Lock blocks new RLocks), sync.Mutex and atomic.Bool as written "
         "in the model; Go's memory model (lock = happens-before) is assumed, data-race freedom of the real code is supported by "
         "the -race build of the thorough tier only",
-        "the search half of the history checker is unverified (its witness is validated; C05_checker_sound)",
-        "Go toolchain, compiled Lean driver drv_c05, Std.HashSet of the Lean toolchain (search memo only)",
+        "the history checker decideHist (total Wing-Gong search with memoisation + witness validation) is proved sound and "
+        "complete (C05_checker_sound, C05_checker_complete); trusted about it: the Lean compiler/runtime and Std.HashSet of the "
+        "toolchain (the proofs use its contains/insert lemmas)",
+        "Go toolchain, compiled Lean driver drv_c05",
     ],
     "modelled": [
         "mapDB.Get/Has/Set/Delete/DeletePrefix/Clear/Iterate/IterateKeys/Close, batchedMutations.Commit, syncedKVMap primitives",
@@ -61,9 +63,10 @@ SPEC = {
                 "Commit) is a sequential execution of the C04 ordered-map specification producing exactly the returned answers, "
                 "every linearisation point lies between its call's invocation and response and determines the response "
                 "(C05_linearizable, C05_linearizable_open, C05_finished_complete, C05_lin_points_in_window); the recorded history of every "
-                "trace is linearizable w.r.t. the full C04 contract including Close, and the checker's verified validator accepts it "
-                "(C05_linearizable_close, C05_checker_complete_on_model_partial - partial: the unverified search is not proved to find "
-                "the witness); Iterate reports the range scan of one map state "
+                "trace is linearizable w.r.t. the full C04 contract including Close: "
+                "C05_linearizable_close; the very function drv_c05 runs accepts the history of every reachable trace of the model "
+                "(C05_checker_complete_on_model) and is a sound and complete decision procedure for linearizability of recorded "
+                "histories, up to an explicitly reported node budget (C05_checker_sound, C05_checker_complete); Iterate reports the range scan of one map state "
                 "(C05_iterate_snapshot); every map access happens under the map lock, write accesses exclusively (C05_well_locked, "
                 "C05_locks_exclusive, C05_map_access_only_at_eff); no reachable deadlock with writer-preferring RWMutexes "
                 "(C05_deadlock_free, from rank order batch<view<map, C05_code_well_bracketed); the accesses are the C04 "
